@@ -99,7 +99,7 @@ func TestQuick(t *testing.T) {
 		fmt.Printf("run=%d steps=%d vtime=%.0fms wall=%.0fms acked=%d leaders=%d crashes=%d hash=%s viol=%d infra=%q\n", run, res.Steps, res.VTimeMs, res.WallMs,
 			statAcked(res), res.Leaders, statCrashes(res), res.EventHash, len(res.Violations), res.Infra)
 		for _, v := range res.Violations {
-			fmt.Printf("   VIOL %s %s: %s\n", v.Property, v.Class, v.Msg)
+			fmt.Printf("   VIOL %s %s: %s %v\n", v.Property, v.Class, v.Msg, v.Facts)
 		}
 	}
 }
